@@ -406,22 +406,46 @@ class WebSocketTemporaryHandler(object):
             self._writeFrame(frame)
         self.closed = True
 
+    def _frameReady(self):
+        """ test if the buffer holds at least one complete frame """
+        buf = self._buffer.buf
+        if len(buf) < 2:
+            return False
+        length = buf[1] & 0x7F
+        size = 2
+        if length == 126:
+            if len(buf) < size + 2:
+                return False
+            length, = struct.unpack("!H", buf[size:size+2])
+            size += 2
+        elif length == 127:
+            if len(buf) < size + 8:
+                return False
+            length, = struct.unpack("!Q", buf[size:size+8])
+            size += 8
+        if buf[1] & 0x80:
+            size += 4
+        return len(buf) >= size + length
+
     def __call__(self, data):
         self._buffer._push(data)
 
-        frame = self._readFrame()
+        # a single read may contain part of a frame or several frames
+        while self._frameReady():
 
-        if not frame.flags.mask:
-            raise Exception("client mask bit not set")
+            frame = self._readFrame()
 
-        if frame.flags.opcode == WebSocketOpCode.Text:
-            frame.payload = frame.payload.decode("utf-8")
+            if not frame.flags.mask:
+                raise Exception("client mask bit not set")
 
-        # TODO: catch and close?
-        self._endpt.callback(self, frame.flags.opcode, frame.payload)
+            if frame.flags.opcode == WebSocketOpCode.Text:
+                frame.payload = frame.payload.decode("utf-8")
 
-        if frame.flags.opcode == WebSocketOpCode.Close:
-            self.close()
+            # TODO: catch and close?
+            self._endpt.callback(self, frame.flags.opcode, frame.payload)
+
+            if frame.flags.opcode == WebSocketOpCode.Close:
+                self.close()
 
 def get(path):
     """decorator which registers a class method as a GET handler
